@@ -3,8 +3,8 @@
 execute(setup, body, crash_at=k | fault_at=(k, errno) ...) forks; the child installs
   * an audit hook (open, os.rename, os.mkdir, os.remove, os.rmdir, os.truncate, os.symlink, shutil.*) — the
     hook sees every such operation whatever Python API issued it and can veto it by raising, and
-  * wrappers around io.open / builtins.open so that write / flush / close of files opened for writing
-    become numbered operations with a byte-prefix parameter (torn writes),
+  * wrappers around io.open / builtins.open and os.open / os.write / os.close so that write / close of files opened
+    for writing (through either API) become numbered operations with a byte-prefix parameter (torn writes),
 restricted to paths under the scenario directory, then runs `body(dir)`.  Operation k (1-based) can be
 a crash point (the child _exit()s before performing it; for a write after an arbitrary byte prefix
 has reached the file) or a fault (the operation is not performed and OSError(errno) is raised).
@@ -80,7 +80,49 @@ class Injector:
         sys.addaudithook(audit)
         real_open = io.open
 
+        fdtable = {}   # descriptors opened for writing through os.open below the scenario directory -> relative path
+        real_os_open, real_os_write, real_os_close = os.open, os.write, os.close
+        wflags = os.O_WRONLY | os.O_RDWR | os.O_CREAT | os.O_TRUNC | os.O_APPEND
+
+        def my_os_open(path, flags, mode=0o777, *, dir_fd=None):
+            if inj.active and dir_fd is None and (flags & wflags) and inj._inside(path):
+                rel = os.path.relpath(os.path.abspath(os.fspath(path)), inj.root)
+                inj.op("open-w", rel, "os.open:%o" % flags)
+                fd = real_os_open(path, flags, mode)
+                fdtable[fd] = rel
+                return fd
+            if dir_fd is None:
+                return real_os_open(path, flags, mode)
+            return real_os_open(path, flags, mode, dir_fd=dir_fd)
+
+        def my_os_write(fd, data):
+            rel = fdtable.get(fd) if inj.active else None
+            if rel is None:
+                return real_os_write(fd, data)
+            inj.k += 1
+            inj.log.append([inj.k, "write", rel, len(data)])
+            if inj.crash_at == inj.k:
+                j = inj.torn or 0
+                real_os_write(fd, bytes(data)[:j])
+                inj.fired.append(["crash", inj.k, "write", j])
+                inj._die()
+            if inj.k in inj.faults:
+                e = inj.faults[inj.k]
+                if inj.torn:
+                    real_os_write(fd, bytes(data)[:inj.torn])
+                inj.fired.append(["fault", inj.k, "write", e])
+                raise OSError(e, os.strerror(e))
+            return real_os_write(fd, data)
+
+        def my_os_close(fd):
+            fdtable.pop(fd, None)
+            return real_os_close(fd)
+
+        os.open, os.write, os.close = my_os_open, my_os_write, my_os_close
+
         def my_open(file, mode="r", *a, **kw):
+            if isinstance(file, int) and inj.active and file in fdtable and any(c in mode for c in "wax+"):
+                return _Proxy(real_open(file, mode, *a, **kw), inj, fdtable[file])   # os.fdopen of a descriptor we track
             if isinstance(file, int) or not inj.active or not inj._inside(file):
                 return real_open(file, mode, *a, **kw)
             rel = os.path.relpath(os.path.abspath(os.fspath(file)), inj.root)
